@@ -25,7 +25,7 @@ def harness_sources():
 
 def tree_hash(variant):
     h = hashlib.sha256()
-    files = engine_sources() + sorted(glob.glob(os.path.join(REPO, "engine", "*.h"))) + harness_sources() \
+    files = engine_sources() + [os.path.join(REPO, "engine", "main.cpp")] + sorted(glob.glob(os.path.join(REPO, "engine", "*.h"))) + harness_sources() \
         + sorted(glob.glob(os.path.join(VERIF, "harness", "*.h")))
     for f in files:
         h.update(f.encode()); h.update(open(f, "rb").read())
@@ -77,6 +77,15 @@ def build(variant="plain", quiet=True):
         shutil.rmtree(bdir, ignore_errors=True)
         raise SystemExit(3)
     os.rename(exe + ".tmp", exe)
+    # the engine's own executable (engine/main.cpp + the same engine objects), for observations of whole processes (exit status)
+    mobj = os.path.join(bdir, "m_main.o")
+    r = subprocess.run(common + ["-c", os.path.join(REPO, "engine", "main.cpp"), "-o", mobj], capture_output=True, text=True)
+    if r.returncode == 0:
+        r = subprocess.run([cc, "-pthread"] + lflags + [o for s_, o in jobs if "/engine/" in s_] + [mobj, "-o", os.path.join(bdir, "engine")], capture_output=True, text=True)
+    if r.returncode != 0:
+        sys.stderr.write("ENGINE BINARY BUILD FAILED\n" + r.stderr[-4000:])
+        shutil.rmtree(bdir, ignore_errors=True)
+        raise SystemExit(3)
     try:
         os.rename(bdir, final_bdir)          # atomic publish; a concurrent builder of the same tree may have won
     except OSError:
@@ -85,6 +94,11 @@ def build(variant="plain", quiet=True):
     if not quiet:
         sys.stderr.write("built %s in %.1fs\n" % (exe, time.time() - t0))
     return exe
+
+def engine_exe(variant="plain"):
+    """the engine's own UCI executable built with the same flags from the same tree"""
+    return os.path.join(os.path.dirname(build(variant)), "engine")
+
 
 if __name__ == "__main__":
     v = sys.argv[1] if len(sys.argv) > 1 else "plain"
